@@ -64,6 +64,11 @@ def setIdx {α} (xs : List α) (i : Int) (v : α) : Except Err (List α) :=
 /-- `range(n)` -/
 def rangeInt (n : Int) : List Int := (List.range n.toNat).map Int.ofNat
 
+/-- `read_byte(infile)` of midifiles.py on the bytes not yet consumed (`infile.read(1)`, `EOFError` at the end) -/
+def readByte : List Int → Except Err (Int × List Int)
+  | [] => .error .EOFError
+  | b :: rest => .ok (b, rest)
+
 /-- `len(xs)` -/
 def len {α} (xs : List α) : Int := xs.length
 
